@@ -5,6 +5,8 @@
 
 package status_updater
 
+import v1 "k8s.io/api/core/v1"
+
 // VerifIdle reports whether no pod or pod-group update is waiting to be applied.
 // Verification-only accessor.
 func (su *defaultStatusUpdater) VerifIdle() bool {
@@ -12,4 +14,23 @@ func (su *defaultStatusUpdater) VerifIdle() bool {
 	su.inFlightPods.Range(func(_, _ any) bool { idle = false; return false })
 	su.inFlightPodGroups.Range(func(_, _ any) bool { idle = false; return false })
 	return idle
+}
+
+// VerifInFlightPods lists (namespace/name) the pods that still have an update recorded as in flight, and
+// reports whether any pod-group update is in flight. An update whose patch failed (e.g. the pod was
+// deleted meanwhile) stays recorded without being retried: a harness uses this to tell such inert
+// entries from pending work. Verification-only accessor.
+func (su *defaultStatusUpdater) VerifInFlightPods() (pods []string, podGroupsInFlight bool) {
+	su.inFlightPods.Range(func(_, v any) bool {
+		if u, ok := v.(*inflightUpdate); ok {
+			if pod, ok := u.object.(*v1.Pod); ok {
+				pods = append(pods, pod.Namespace+"/"+pod.Name)
+				return true
+			}
+		}
+		pods = append(pods, "?")
+		return true
+	})
+	su.inFlightPodGroups.Range(func(_, _ any) bool { podGroupsInFlight = true; return false })
+	return pods, podGroupsInFlight
 }
